@@ -469,8 +469,14 @@ def run_life_batch(cases, jobs=8):
                 w = _Worker()
             budget = (len(c["history"]) + 6) * c.get("hang", K.HANG) + 30
             r = w.ask(c, budget)
+            if r is None:                      # the worker was gone: once more with a fresh one
+                w = _Worker()
+                r = w.ask(c, budget)
             if r is None:
                 r = {"harness_error": "lifecycle worker died or timed out", "returned": 0, "hung_op": 0}
+            if r.pop("_dirty", False):         # it had a hung call: its threads cannot be recovered
+                w.kill()
+                w = None
             results[i] = r
         if w is not None:
             try:
@@ -490,7 +496,7 @@ class Life(pipeline.Stream):
     """(c) all API-legal lifecycle histories up to a length bound, every call under a watchdog"""
     name = "lifecycle"
     model_imports = "Server"
-    case_type = "kind * list op * (nat * bool * option bool)"
+    case_type = "kind * list op * (nat * bool * option bool * bool)"
     check_fn = "c12_life_check"
     shard = 400
 
@@ -556,6 +562,13 @@ class Life(pipeline.Stream):
             return None
         if not obs.get("replies_ok", True):
             return ("C12:request-not-answered", "a request of history %s did not get its own reply: %s" % (h, obs["notes"]))
+        if "S" in h:
+            last_s = len(h) - 1 - h[::-1].index("S")
+            stopped = any(o in ("SD", "CL") for o in h[last_s:])
+            if stopped and obs.get("serve_alive"):
+                return ("C12:serving-loop-alive-after-stop", "the serve_forever thread is still running %d s after the stop call of %s returned" % (self.K.HANG, h))
+            if not stopped and obs.get("serve_alive") is False:
+                return ("C12:serving-loop-died", "the serve_forever thread ended although nobody stopped it in %s" % h)
         if "CL" in h:
             if obs.get("socket_open"):
                 return ("C12:socket-open-after-close", "listening socket still open after server_close() in %s" % h)
@@ -569,9 +582,9 @@ class Life(pipeline.Stream):
             return None
         closed = "CL" in h and obs.get("returned") == len(h)
         wd = "(Some %s)" % G.g_bool(bool(obs.get("workers_dead"))) if closed else "None"
-        return "(%s, %s, (%d%%nat, %s, %s))" % (
+        return "(%s, %s, (%d%%nat, %s, %s, %s))" % (
             "Plain" if case["kind"] == "plain" else "Pooled", G.g_list([OPS[o] for o in h]),
-            obs.get("returned", 0), G.g_bool(bool(obs.get("socket_open"))), wd)
+            obs.get("returned", 0), G.g_bool(bool(obs.get("socket_open"))), wd, G.g_bool(bool(obs.get("serve_alive"))))
 
     def nontrivial(self, case, obs):
         return "CL" in case["history"] or "SD" in case["history"] or "CX" in case["history"]
@@ -588,7 +601,7 @@ class Life(pipeline.Stream):
     def describe(self, case, obs):
         return {"server": case["kind"], "pool": case.get("pool"), "family": case["family"], "history": case["history"],
                 "calls_returned": obs.get("returned"), "hung_call": obs.get("hung_op"), "socket_open": obs.get("socket_open"),
-                "workers_dead": obs.get("workers_dead"), "notes": obs.get("notes")}
+                "workers_dead": obs.get("workers_dead"), "serving_thread_alive": obs.get("serve_alive"), "notes": obs.get("notes")}
 
     def shrink(self, case):
         h = case["history"]
